@@ -221,6 +221,8 @@ fn writer_body(sc: &Scen) {
     sess.db.cx_arc().take_log();
 }
 
+const CANCEL_MARK: u32 = u32::MAX - 1;
+
 /// C21: thread A (index 0) runs its requests, thread B cancels A's token once, the remaining
 /// threads run overlapping requests; afterwards A retries until a request succeeds.
 fn cancel_body(sc: &Scen) {
@@ -240,10 +242,13 @@ fn cancel_body(sc: &Scen) {
         let outs: Vec<Out> = a_ops.iter().map(|op| request(&a_db, op)).collect();
         (a_db, outs)
     });
+    let cx_b = sess.db.cx_arc();
     let b = shuttle::thread::spawn(move || {
         // the moment of the cancellation is chosen by the scheduler
         shuttle::thread::yield_now();
         token.cancel();
+        // marker in the shared observation log (no scheduling point since the cancel)
+        cx_b.rec(Rec::Op(CANCEL_MARK));
     });
     let others: Vec<_> = sc.threads[1..]
         .iter()
@@ -283,6 +288,12 @@ fn cancel_body(sc: &Scen) {
     let retry2: Vec<Out> = sc.threads[0].iter().map(|op| request(&a_db, op)).collect();
     drop(a_db);
     let log = sess.db.cx_arc().take_log();
+    if std::env::var("MC_TRACE").is_ok() {
+        eprintln!("== A: {} | retry {} | retry2 {}", outs_class(&[a_outs.clone()]), outs_class(&[retry_outs.clone()]), outs_class(&[retry2.clone()]));
+        for r in &log {
+            eprintln!("     {r:?}");
+        }
+    }
     let mut all = vec![a_outs.clone()];
     all.extend(other_outs.iter().cloned());
     outcome(format!("{}: {} || retry {}", sc.name, outs_class(&all), outs_class(&[retry_outs.clone()])));
@@ -304,6 +315,84 @@ fn cancel_body(sc: &Scen) {
     if n_local > 1 {
         viol(&format!("cancelled-twice:{}", sc.name), format!("one cancel() cancelled {n_local} computations of the handle"));
         return;
+    }
+    // the cancellation must be honoured: the computation that is current at the moment of
+    // cancel() unwinds at its next tracked-function request outside fixpoint iteration; if it
+    // makes no such request the token is reset when it returns; if the handle is idle, its next
+    // computation unwinds.
+    {
+        let a_th = 1u8; // thread A is the first spawned thread
+        let mark = log.iter().position(|r| matches!(r, Rec::Op(m) if *m == CANCEL_MARK));
+        if let Some(m) = mark {
+            // walk A's records: which top-level request is current at the marker?
+            let mut depth = 0i32;
+            let mut req: i32 = -1; // index of A's current/last top-level request
+            let mut fx_depth = 0i32;
+            let mut must_cancel: Option<usize> = None;
+            let mut decided = false;
+            for (idx, r) in log.iter().enumerate() {
+                match r {
+                    Rec::CallBegin { th, .. } if *th == a_th || *th == 0 => {
+                        if depth == 0 {
+                            req += 1;
+                            fx_depth = 0;
+                            if idx > m && !decided {
+                                // the handle was idle at cancel(): this computation must unwind
+                                must_cancel = Some(req as usize);
+                                decided = true;
+                            }
+                        } else if idx > m && !decided && fx_depth == 0 {
+                            // a tracked-function request of the current computation, outside
+                            // fixpoint iteration, after the cancel
+                            must_cancel = Some(req as usize);
+                            decided = true;
+                        }
+                        depth += 1;
+                    }
+                    Rec::CallEnd { th, .. } if *th == a_th || *th == 0 => {
+                        depth -= 1;
+                        if depth == 0 && idx > m && !decided {
+                            // the current computation returned without another request: token reset
+                            decided = true;
+                        }
+                    }
+                    Rec::Enter { th, f, .. } if *th == a_th || *th == 0 => {
+                        if matches!(f, F::Fx | F::Fxj | F::Fb) {
+                            fx_depth += 1;
+                        }
+                    }
+                    Rec::Exit { th, f, unwinding, .. } if *th == a_th || *th == 0 => {
+                        if matches!(f, F::Fx | F::Fxj | F::Fb) {
+                            fx_depth -= 1;
+                        }
+                        if *unwinding {
+                            // unwinding pops the call frames without CallEnd records
+                            if idx > m && !decided {
+                                // a request logged just before the cancel() performed its
+                                // cancellation check after it: the current computation unwinds
+                                must_cancel = Some(req as usize);
+                                decided = true;
+                            }
+                            depth = 0;
+                        }
+                    }
+                    _ => {}
+                }
+            }
+            let all: Vec<&Out> = a_outs.iter().chain(retry_outs.iter()).chain(retry2.iter()).collect();
+            if let Some(j) = must_cancel {
+                if j < all.len() {
+                    bump("cancellations_that_had_to_unwind", 1);
+                    if !matches!(all[j], Out::Panic(Pk::CancelLocal)) {
+                        viol(
+                            &format!("cancellation-lost:{}", sc.name),
+                            format!("cancel() was called while request #{j} of the handle still had a tracked-function request outside fixpoint iteration ahead (or the handle was idle), but that request ended in {:?}", all[j]),
+                        );
+                        return;
+                    }
+                }
+            }
+        }
     }
     // the request right after a cancelled one runs normally
     let firsts: Vec<&Out> = a_outs.iter().chain(retry_outs.iter()).collect();
